@@ -1,5 +1,5 @@
 """C07 - solve() is observationally the textbook mini-batch training loop."""
-from . import _solve
+from . import _contracts, _solve
 
 
 def base(n, **kw):
@@ -43,7 +43,7 @@ def extra(rng, quick):
 
 def run(tier, seed):
     return _solve.run(
-        "C07", tier, seed, select=select, extra_cases=extra, needs=["resumed", "non_decoded_optimizers", "with_aux"],
+        "C07", tier, seed, select=select, extra_cases=extra, needs=["resumed", "non_decoded_optimizers", "with_aux"], extra_leg=_contracts.leg(("solve",), 0),
         rule="MC: Solve.tla (RunsExactlyN, HistoryIsReferenceLoop, HistoryLengths, Terminates); replay: scenarios without stop/fault from "
              "TLC's emission + driver families: epoch wrap (12 iterations), batch sizes dividing / not dividing / equal to n, parameter and "
              "observation generators (their batches decoded from the loss terms), tracked-parameter specs, sgd/adam/chained-schedule "
